@@ -5,8 +5,8 @@ import random
 
 from harness import core, docgen, inputs, trees, xdoc
 
-GEN = ['gen_tables', 'gen_regex', 'gen_config', 'gen_escapes']
-THEOREMS = ['C12_shape', 'C12_heading_level_range', 'C12_traverse', 'C12_traverse_once', 'C12_true_parent', 'C12_list_start_agrees']
+GEN = ['gen_tables', 'gen_regex', 'gen_config', 'gen_escapes', 'gen_blockstart']
+THEOREMS = ['C12_heading_start_is_the_source', 'C12_shape', 'C12_heading_level_range', 'C12_traverse', 'C12_traverse_once', 'C12_true_parent', 'C12_list_start_agrees']
 TRUSTED = ['the parser model (tied by X-doc) for the shape theorem; Model/Traverse.v: hand-written model of utils.traverse (tied by running the real '
            'generator on real object graphs with every argument combination)',
            'the independent walker of the real object graph (harness side): parent links, reachability, attribute ranges, AST mirror']
